@@ -33,7 +33,7 @@ def ball(adj, u, hops):
     return [x for x in adj if x in seen and x != u]
 
 
-def rate_of(rules, adj, u, status):
+def rate_of(rules, adj, u, status, nodew=None):
     """rules: {status: [kind, rate, X, theta, hops]}"""
     rule = rules.get(status[u])
     if rule is None:
@@ -41,6 +41,8 @@ def rate_of(rules, adj, u, status):
     kind, r, X, theta, hops = rule
     if kind == 'const':
         return r
+    if kind == 'pernode':
+        return r * nodew[u]
     cnt = sum(1 for v in ball(adj, u, hops) if status[v] == X)
     if kind == 'threshold':
         return r if cnt >= theta else 0.0
@@ -63,7 +65,14 @@ class ComplexModel(object):
         self.statuses = list(case['statuses'])
         self.rules = {k: v for k, v in case['rules'].items()}
         self.nextstatus = dict(case['next'])
-        self.hops = max([1] + [v[4] for v in self.rules.values() if v[0] != 'const'])
+        self.hops = max([1] + [v[4] for v in self.rules.values() if v[0] not in ('const', 'pernode')])
+        self.nodew = dict(zip(self.nodes, case.get('nodew') or [1.0] * len(self.nodes)))
+        # statuses whose presence in a neighbourhood enters some rate; a change a->b can alter other nodes' rates
+        # only if a or b is one of them.  A 'lazy' influence function may return nothing otherwise.
+        Xs = set(v[2] for v in self.rules.values() if v[0] in ('threshold', 'linear'))
+        self.relevant_new = set(b for a, b in self.nextstatus.items() if a in Xs or b in Xs)
+        inj = len(set(self.nextstatus.values())) == len(self.nextstatus)
+        self.lazy = bool(case.get('lazy_influence')) and inj
         self.ret = list(case.get('ret') or self.statuses)
         self.calls = []
 
@@ -71,8 +80,10 @@ class ComplexModel(object):
         import EoN
         rules, adj, nxt, hops = self.rules, self.adj, self.nextstatus, self.hops
 
+        nodew, lazy, relevant_new = self.nodew, self.lazy, self.relevant_new
+
         def rate_function(G, node, status, parameters):
-            return rate_of(rules, adj, node, status)
+            return rate_of(rules, adj, node, status, nodew)
 
         def transition_choice(G, node, status, parameters):
             return nxt[status[node]]
@@ -81,6 +92,8 @@ class ComplexModel(object):
 
         def get_influence_set(G, node, status, parameters):
             b = ball(adj, node, hops)
+            if lazy and status[node] not in relevant_new:
+                b = []          # the node's NEW status tells that no other node's rate can have changed
             if form == 'tuple':
                 return tuple(b)
             if form == 'iter':
@@ -116,7 +129,7 @@ class ComplexModel(object):
     def oracle(self, state):
         ev = {}
         for u in self.nodes:
-            r = rate_of(self.rules, self.adj, u, state)
+            r = rate_of(self.rules, self.adj, u, state, self.nodew)
             if r > 0:
                 ev[(u, self.nextstatus[state[u]], None)] = r
         return ev
@@ -136,7 +149,7 @@ def prop_tree(case, walk=None, max_depth=10, max_levels=1500):
     fails, stats = steplaw.explore(model, 'Gillespie_complex_contagion', walk=walk, max_depth=max_depth,
                                    max_levels=max_levels, observe=observe)
     kinds = sorted(set(v[0] for v in model.rules.values()))
-    classes = ['rule:' + k for k in kinds] + ['hops%d' % model.hops, 'influence-set-as-' + case.get('infl_form', 'list')] + (['tmax-inf'] if model.tmax == INF else ['tmax-finite'])
+    classes = (['lazy-influence'] if model.lazy else []) + ['rule:' + k for k in kinds] + ['hops%d' % model.hops, 'influence-set-as-' + case.get('infl_form', 'list')] + (['tmax-inf'] if model.tmax == INF else ['tmax-finite'])
     if flags['ended']:
         classes.append('ran-to-extinction-or-horizon')
     nt = flags['deep'] >= 2 and any(k != 'const' for k in kinds)
@@ -166,7 +179,7 @@ def model_case(draw):
     for s in names:
         others = [x for x in names if x != s]
         nxt[s] = draw(st.sampled_from(others))
-        kind = draw(st.sampled_from(['none', 'const', 'threshold', 'threshold', 'linear', 'linear']))
+        kind = draw(st.sampled_from(['none', 'const', 'threshold', 'threshold', 'linear', 'linear', 'pernode']))
         if kind == 'none':
             continue
         r = draw(st.one_of(st.sampled_from(RPOOL), st.floats(0.05, 5.0, allow_nan=False)))
@@ -184,7 +197,9 @@ def model_case(draw):
             'ret': list(draw(st.permutations(sub))), 'tmin': tmin,
             'tmax': draw(st.sampled_from(['inf', 'inf', tmin + 1.0, tmin + 2.25, tmin + 100])),
             'walk': draw(st.lists(st.integers(0, 7), min_size=0, max_size=10)),
-            'infl_form': draw(st.sampled_from(['list', 'tuple', 'iter', 'generator', 'dictkeys']))}
+            'infl_form': draw(st.sampled_from(['list', 'tuple', 'iter', 'generator', 'dictkeys'])),
+            'lazy_influence': draw(st.booleans()),
+            'nodew': [draw(st.sampled_from([1.0, 1.0, 2.0, 3.0, 5.0, 0.5])) for _ in range(n)]}
 
 
 def canonical_cases(quick):
@@ -197,6 +212,10 @@ def canonical_cases(quick):
         (['S', 'I', 'R'], {'S': ['linear', 0.1, 'I', 1, 1], 'I': ['const', 0.3, 'I', 1, 1]}, {'S': 'I', 'I': 'R', 'R': 'S'}),
         # two-hop influence, SIS-like
         (['S', 'I'], {'S': ['threshold', 2.0, 'I', 1, 2], 'I': ['const', 0.7, 'I', 1, 1]}, {'S': 'I', 'I': 'S'}),
+        # independent adopters with heterogeneous per-node rates (the heaviest candidate leaves, nobody is re-rated)
+        (['U', 'A'], {'U': ['pernode', 1.0, 'A', 1, 1]}, {'U': 'A', 'A': 'U'}),
+        # S->E->I cascade: only the E->I step changes anybody else's rate (lazy influence function)
+        (['S', 'E', 'I'], {'S': ['linear', 1.0, 'I', 1, 1], 'E': ['const', 2.0, 'I', 1, 1]}, {'S': 'E', 'E': 'I', 'I': 'S'}),
     ]
     for statuses, rules, nxt in specs:
         for n in (2, 3) if quick else (2, 3, 4):
@@ -205,13 +224,14 @@ def canonical_cases(quick):
                 graphs = [g for g in graphs if len(g) >= 3][::4]
             for edges in graphs:
                 ics = [[statuses[-1 if len(statuses) == 2 else 1]] + [statuses[0]] * (n - 1),
+                       [statuses[0]] * n,
                        [statuses[(i + 1) % len(statuses)] for i in range(n)]]
                 if n >= 3:
                     ics.append([statuses[-1 if len(statuses) == 2 else 1]] * 2 + [statuses[0]] * (n - 2))
                 for IC in ics:
                     for tmax in ('inf', 2.0):
                         k_form = ['list', 'iter', 'generator', 'tuple'][(len(edges) + n + len(IC[0])) % 4]
-                        yield {'infl_form': k_form, 'gc': {'nodes': list(range(n)), 'edges': edges, 'ew': None, 'nw': None},
+                        yield {'lazy_influence': True, 'nodew': [5.0, 1.0, 1.0, 3.0][:n], 'infl_form': k_form, 'gc': {'nodes': list(range(n)), 'edges': edges, 'ew': None, 'nw': None},
                                'statuses': statuses, 'rules': rules, 'next': nxt, 'IC': IC, 'ret': statuses,
                                'tmin': 0, 'tmax': tmax, 'depth': 5 if quick else 6}
 
